@@ -1155,4 +1155,78 @@ example : (∀ x ∈ exCfg.links, x.lid ≠ 1) ∧ (0 : Nat) < 3 ∧ 0 ∉ exCfg
       rw [e] at hp; simp at hp; subst hp; decide
   | j + 1 => simp [exCfg] at hj
 
+/-! ### round 6g: rotation and symmetry links added between two calls -/
+
+/-- **A link whose transform reproduces the follower at the leader's current position.** `l0`, `f0` are the positions of
+    leader and follower after the first call; `fn l0 = f0` is what the link's constructor has to deliver. Then the
+    consistency hypothesis of `T_C13_noworse_add_link` holds and with it its conclusion. -/
+theorem T_C13_noworse_add_link_current [LinearOrder Q] [LinearOrder S] {cfg : Cfg P Prm} {n : Nat} (hwf : WF cfg n)
+    (o : Oracles P Q) (c1 c2 : Call Prm Q S) (st : St P Prm) (hr : Rest cfg n st) (q0 : Q) (hq : o.gq st.pts = some q0)
+    (l : Link) (fn : P → P) (l0 f0 : P) (hfresh : ∀ x ∈ cfg.links, x.lid ≠ l.lid)
+    (hfol : l.leader ∈ cfg.clampIdx → l.follower < n ∧ l.follower ∉ cfg.clampIdx ∧
+      ∀ x ∈ cfg.links, x.leader ∈ cfg.clampIdx → x.follower ≠ l.follower)
+    (hl0 : (optimize cfg o c1.conv c1.maxIter c1.sched st).st.pts[l.leader]? = some l0)
+    (hf0 : (optimize cfg o c1.conv c1.maxIter c1.sched st).st.pts[l.follower]? = some f0) (hfn : fn l0 = f0) :
+    let st1 := (optimize cfg o c1.conv c1.maxIter c1.sched st).st
+    let cfg' := cfg.addLink l fn
+    let st2 := (optimize cfg' o c2.conv c2.maxIter c2.sched st1).st
+    WF cfg' n ∧ Rest cfg' n st1 ∧ Rest cfg' n st2 ∧ ∃ q2, o.gq st2.pts = some q2 ∧ q2 ≤ q0 := by
+  refine T_C13_noworse_add_link hwf o c1 c2 st hr q0 hq l fn hfresh hfol ?_
+  intro j p hj hp
+  have hr1 : Rest cfg n (optimize cfg o c1.conv c1.maxIter c1.sched st).st :=
+    T_C13_on hwf o c1.conv c1.maxIter c1.sched st hr
+  have := (hr1.2.2 j l.leader p hj hp).1
+  rw [hl0] at this
+  rw [hf0, ← Option.some.inj this, hfn]
+
+/-- **A `RotationLink` added between two calls**, built from the current positions: its transform turns the follower's
+    creation point `f0` about the axis `(o, a)` by the quaternion `(w x, μ x · a)` of the leader's turn from its creation
+    point to `x`; at the creation point the turn is the identity (`μ l0 = 0` — the condition the constructor needs). -/
+theorem T_C13_noworse_add_rotation_link [LinearOrder Q] [LinearOrder S] {cfg : Cfg V3 Prm} {n : Nat} (hwf : WF cfg n)
+    (o : Oracles V3 Q) (c1 c2 : Call Prm Q S) (st : St V3 Prm) (hr : Rest cfg n st) (q0 : Q) (hq : o.gq st.pts = some q0)
+    (l : Link) (a org l0 f0 : V3) (w mu : V3 → Rat) (hid : mu l0 = 0) (hfresh : ∀ x ∈ cfg.links, x.lid ≠ l.lid)
+    (hfol : l.leader ∈ cfg.clampIdx → l.follower < n ∧ l.follower ∉ cfg.clampIdx ∧
+      ∀ x ∈ cfg.links, x.leader ∈ cfg.clampIdx → x.follower ≠ l.follower)
+    (hl0 : (optimize cfg o c1.conv c1.maxIter c1.sched st).st.pts[l.leader]? = some l0)
+    (hf0 : (optimize cfg o c1.conv c1.maxIter c1.sched st).st.pts[l.follower]? = some f0) :
+    let st1 := (optimize cfg o c1.conv c1.maxIter c1.sched st).st
+    let cfg' := cfg.addLink l (fun x => C17.rotationLink (w x) (V3.smul (mu x) a) org f0)
+    let st2 := (optimize cfg' o c2.conv c2.maxIter c2.sched st1).st
+    WF cfg' n ∧ Rest cfg' n st1 ∧ Rest cfg' n st2 ∧ ∃ q2, o.gq st2.pts = some q2 ∧ q2 ≤ q0 :=
+  T_C13_noworse_add_link_current hwf o c1 c2 st hr q0 hq l _ l0 f0 hfresh hfol hl0 hf0
+    (by show C17.rotationLink (w l0) (V3.smul (mu l0) a) org f0 = f0; rw [hid]; exact c17_rotation_identity _ _ _ _)
+
+/-- **A `SymmetryLink` added between two calls**: the follower must be the mirror image of the leader's current
+    position — met when the follower was created as the leader's mirror image, or the leader as the follower's. -/
+theorem T_C13_noworse_add_symmetry_link [LinearOrder Q] [LinearOrder S] {cfg : Cfg V3 Prm} {n : Nat} (hwf : WF cfg n)
+    (o : Oracles V3 Q) (c1 c2 : Call Prm Q S) (st : St V3 Prm) (hr : Rest cfg n st) (q0 : Q) (hq : o.gq st.pts = some q0)
+    (l : Link) (nrm org l0 f0 : V3)
+    (hmir : f0 = C17.symmetryLink nrm org l0 ∨ (V3.dot nrm nrm ≠ 0 ∧ l0 = C17.symmetryLink nrm org f0))
+    (hfresh : ∀ x ∈ cfg.links, x.lid ≠ l.lid)
+    (hfol : l.leader ∈ cfg.clampIdx → l.follower < n ∧ l.follower ∉ cfg.clampIdx ∧
+      ∀ x ∈ cfg.links, x.leader ∈ cfg.clampIdx → x.follower ≠ l.follower)
+    (hl0 : (optimize cfg o c1.conv c1.maxIter c1.sched st).st.pts[l.leader]? = some l0)
+    (hf0 : (optimize cfg o c1.conv c1.maxIter c1.sched st).st.pts[l.follower]? = some f0) :
+    let st1 := (optimize cfg o c1.conv c1.maxIter c1.sched st).st
+    let cfg' := cfg.addLink l (C17.symmetryLink nrm org)
+    let st2 := (optimize cfg' o c2.conv c2.maxIter c2.sched st1).st
+    WF cfg' n ∧ Rest cfg' n st1 ∧ Rest cfg' n st2 ∧ ∃ q2, o.gq st2.pts = some q2 ∧ q2 ≤ q0 :=
+  T_C13_noworse_add_link_current hwf o c1 c2 st hr q0 hq l _ l0 f0 hfresh hfol hl0 hf0 (c17_symmetry_at nrm org l0 f0 hmir)
+
+/-- non-vacuity on `exCfgG` (plane clamp on junction 0 at (1,3,0), junction 1 its mirror image (3,3,0) about x = 2):
+    with no iteration (`maxIter = 0`) the first call leaves the state, `hl0` / `hf0` hold, the mirror condition holds
+    both ways, a quaternion family with `μ (1,3,0) = 0` exists, the link id 7 is fresh, and a link led by the unclamped junction 1
+    satisfies the follower condition vacuously -/
+def exOG : Oracles V3 Int := { gq := fun _ => some 0, jq := fun _ _ => some 0 }
+
+example : (optimize exCfgG exOG (fun _ => false) 0 (fun _ => (⟨fun _ => ([], 0), fun _ _ => ([], false)⟩ : IterSched (List Rat) Int)) exStG).st.pts[0]?
+      = some ⟨1, 3, 0⟩ ∧
+    (optimize exCfgG exOG (fun _ => false) 0 (fun _ => (⟨fun _ => ([], 0), fun _ _ => ([], false)⟩ : IterSched (List Rat) Int)) exStG).st.pts[1]?
+      = some ⟨3, 3, 0⟩ ∧
+    (⟨3, 3, 0⟩ : V3) = C17.symmetryLink ⟨1, 0, 0⟩ ⟨2, 0, 0⟩ ⟨1, 3, 0⟩ ∧
+    (V3.dot (⟨1, 0, 0⟩ : V3) ⟨1, 0, 0⟩ ≠ 0 ∧ (⟨1, 3, 0⟩ : V3) = C17.symmetryLink ⟨1, 0, 0⟩ ⟨2, 0, 0⟩ ⟨3, 3, 0⟩) ∧
+    (fun (x : V3) => x.x - 1) ⟨1, 3, 0⟩ = 0 ∧
+    C17.rotationLink 1 (V3.smul ((fun (x : V3) => x.x - 1) ⟨1, 3, 0⟩) ⟨0, 0, 1⟩) ⟨0, 0, 0⟩ ⟨3, 3, 0⟩ = ⟨3, 3, 0⟩ ∧
+    (∀ x ∈ exCfgG.links, x.lid ≠ 7) ∧ 1 ∉ exCfgG.clampIdx := by decide +kernel
+
 end CBV.C13
